@@ -8,7 +8,11 @@ open Femto Femto.Driver Femto.Cont
 def tyOf (s : String) : Ty :=
   match s with
   | "wg" => .wg | "nasu" => .nasu | "tc" => .tc | "utc" => .utc | "mk" => .mk
-  | _ => .foreign 0
+  | _ =>
+    -- "foreign:<n>": objects of different Python types are different foreign types (the group homogeneity check sees that)
+    match s.splitOn ":" with
+    | [_, n] => .foreign (n.toNat?.getD 0)
+    | _ => .foreign 0
 
 partial def itemOf (j : Json) : Except String Item := do
   match j.getObjVal? "g" with
